@@ -66,6 +66,8 @@ def main() -> int:
         for b in board_set:
             rep.evaluations += 1
             should = p in reg and b in reg[p]
+            # fresh string objects (as read from a file or the command line), never the registry's own interned keys
+            p, b = "".join(list(p)), "".join(list(b))
             try:
                 pio.validate_platform_board(p, b)
                 ok = True
@@ -91,7 +93,9 @@ def main() -> int:
     n_proj = 1200 if t == "quick" else 6000
     ports = ["COM3", "COM10", "COM27", "COM100", "com12", "~/dev/tty", "/dev/ttyACM0", "/dev/tty.usbmodem-14101", "COM=7", "a:b", "x;y", "p#q", "100%", "%(board)s", "${env.port}",
              "[env]", "back\\slash", "sp ace", "ünï", "端口", "a=b=c", "--flag", "C:\\dev\\com1", "'q'", '"dq"']
-    libs_pool = ["Servo", "LiquidCrystal", "LiquidCrystal_I2C", "", None, "Adafruit NeoPixel@^1.0", "owner/Lib", "Servo"]
+    # (distinct specs that share a library name - a pinned and an unpinned Servo, two git@ URLs - are distinct entries)
+    libs_pool = ["Servo", "LiquidCrystal", "LiquidCrystal_I2C", "", None, "Adafruit NeoPixel@^1.0", "owner/Lib", "Servo", "Servo@^1.2.1", "Servo@1.1.8",
+                 "git@github.com:a/b.git", "git@github.com:c/d.git", "https://example.org/lib.zip", "owner/Lib@2.0"]
     sources = ["void setup(){}\nvoid loop(){}\n", "", "// ünïcode 端口 \U0001F600\n", "line1\r\nline2\r\n", "no newline at end",
                "\ttabs\t\n\n\n", "#include <Arduino.h>\n" * 50]
     base = Path(tempfile.mkdtemp(prefix="reduverif-c13-"))
@@ -118,6 +122,8 @@ def main() -> int:
             port = r.choice(ports) if r.random() < 0.6 else "".join(r.choice("abcXYZ0189/:._-=;#%[]$() ü端") for _ in range(r.randint(1, 12))).strip() or "p"
             plat = r.choice(platforms)
             board = r.choice(sorted(reg[plat]))
+            if r.random() < 0.5:
+                plat, board = "".join(list(plat)), "".join(list(board))   # equal but distinct string objects
             libs = [r.choice(libs_pool) for _ in range(r.randint(0, 5))]
             libs_arg = None if r.random() < 0.1 else (iter(libs) if r.random() < 0.2 else libs)
             src = r.choice(sources) if r.random() < 0.7 else "".join(chr(r.choice([r.randint(32, 126), r.randint(160, 1000), 10])) for _ in range(r.randint(0, 200)))
@@ -197,6 +203,15 @@ def main() -> int:
         rep.evaluations += 1
         if (twice / "src" / "main.cpp").read_text() != "// second\n":
             rep.violation("second write_project into the same directory left the previous src/main.cpp in place", key="stale-main")
+        import configparser as _cp
+        for libs2 in (["LiquidCrystal", "Servo"], [], ["LiquidCrystal_I2C"]):
+            pio.write_project(twice, "// third\n", "COM3", platform="atmelavr", board="uno", lib_deps=libs2)
+            c2 = _cp.ConfigParser(interpolation=None)
+            c2.read(twice / "platformio.ini", encoding="utf-8")
+            got2 = [x.strip() for x in c2[c2.sections()[0]].get("lib_deps", "").splitlines() if x.strip()]
+            rep.count("same_dir_rewrites")
+            if got2 != libs2:
+                rep.violation(f"write_project into an existing project directory kept a stale platformio.ini: lib_deps {got2}, given {libs2}", key="stale-ini")
         # validation is a function of the pair only: a valid use of a board must not make later invalid pairs pass
         for plat_ok, board_ok, plat_bad in (("atmelmegaavr", "nano_every", "atmelavr"), ("atmelavr", "uno", "mystery"), ("atmelavr", "uno", "atmelmegaavr")):
             pio.validate_platform_board(plat_ok, board_ok)
